@@ -479,6 +479,9 @@ func (c *Conn) Write(b []byte) (int, error) {
 			n.applyFault(c.link, f.Kind)
 		}
 	}
+	// something new is enabled (a delivery): the scheduler may be letting time
+	// pass, and a harness task that woke from a sleep does not park by itself
+	n.W.Ping()
 	return len(b), nil
 }
 
@@ -496,6 +499,7 @@ func (c *Conn) Close() error {
 	c.in.pkts = nil
 	c.in.rq.Wake()
 	c.out.rq.Wake()
+	n.W.Ping()
 	if c.rdlTimer != nil {
 		c.rdlTimer.Stop()
 	}
@@ -642,6 +646,8 @@ type Dialer struct {
 	LocalIP   string
 	KeepAlive time.Duration
 	Tag       string
+	// TagFunc, if set, names the link after who dialled (e.g. the calling task)
+	TagFunc func() string
 	Dials     int
 }
 
@@ -685,6 +691,10 @@ func (d *Dialer) Dial(network, address string) (net.Conn, error) {
 	if lk.Tag == "" {
 		lk.Tag = d.Tag
 	}
+	if d.TagFunc != nil {
+		lk.Tag = d.TagFunc()
+	}
+	n.W.Ping()
 	l.backlog = append(l.backlog, lk.Ends[1])
 	l.aq.Wake()
 	return lk.Ends[0], nil
